@@ -86,7 +86,7 @@ func cases(tier string, seed int64) []eng.Case {
 	var out []eng.Case
 	n := 60
 	if tier == "thorough" {
-		n = 700
+		n = 4000
 	}
 	for i := 0; i < n; i++ {
 		c := cfg{Ring: eng.Pick(r, "std", "std", "ci"), Xs: eng.Pick(r, xsKinds...), Xe: eng.Pick(r, xeKinds...)}
@@ -126,7 +126,7 @@ func cases(tier string, seed int64) []eng.Case {
 func init() {
 	eng.Register(&eng.Monitor{
 		ID: "C03", Level: "exploration",
-		Rule: "cases = accepted rlwe parameter literals (ring type x logN x Q/P prime sizes (1..4 Q, 0..2 P) x secret distribution x error distribution); inside an 'enc' case every level x key type (sk, pk) x encryptor variant (plain, ShallowCopy, WithKey, WithPRNG) x target degree (0 with keyed PRNG, 1, 2) x IsNTT x IsMontgomery is encrypted, decrypted and its exact centred error measured; 'keys' cases measure the error of every component of public, relinearisation, Galois and generic evaluation keys. distinct key = (family, ring type, logN, chain sizes, Xs, Xe, level, key type, variant, degree, flags); non-trivial = not the all-default combination (level max, sk, plain encryptor, degree 1, NTT, non-Montgomery).",
+		Rule:  "cases = accepted rlwe parameter literals (ring type x logN x Q/P prime sizes (1..4 Q, 0..2 P) x secret distribution x error distribution); inside an 'enc' case every level x key type (sk, pk) x encryptor variant (plain, ShallowCopy, WithKey, WithPRNG) x target degree (0 with keyed PRNG, 1, 2) x IsNTT x IsMontgomery is encrypted, decrypted and its exact centred error measured; 'keys' cases measure the error of every component of public, relinearisation, Galois and generic evaluation keys. distinct key = (family, ring type, logN, chain sizes, Xs, Xe, level, key type, variant, degree, flags); non-trivial = not the all-default combination (level max, sk, plain encryptor, degree 1, NTT, non-Montgomery).",
 		Cases: cases,
 		Assumptions: []string{
 			"ring arithmetic used to evaluate c0+c1*s is the one judged by C01",
@@ -155,6 +155,29 @@ func varOf(d ring.DistributionParameters, n int) float64 {
 			return x.P
 		}
 		return float64(min(x.H, n)) / float64(n)
+	}
+	return 0
+}
+
+// zeroBits returns -log2 of the probability that n independent draws of d are all zero.
+func zeroBits(d ring.DistributionParameters, n int) float64 {
+	switch x := d.(type) {
+	case ring.DiscreteGaussian:
+		// P(0) <= 1/(sigma*sqrt(2pi)) for sigma >= 1; narrower ones are treated as possibly all-zero
+		if x.Sigma < 1 {
+			return 0
+		}
+		return float64(n) * math.Log2(x.Sigma*math.Sqrt(2*math.Pi))
+	case ring.Ternary:
+		if x.P != 0 {
+			if x.P >= 1 {
+				return math.Inf(1)
+			}
+			return -float64(n) * math.Log2(1-x.P)
+		}
+		if x.H >= 1 {
+			return math.Inf(1)
+		}
 	}
 	return 0
 }
@@ -255,6 +278,55 @@ func runEnc(c *eng.Ctx, cf cfg) {
 			prng, _ := sampling.NewKeyedPRNG(prngKey)
 			return rlwe.NewEncryptor(params, k).WithPRNG(prng)
 		}},
+	}
+	// encryptors derived from one another (ShallowCopy, WithKey) must draw independent randomness: the k-th
+	// encryption of a copy must not repeat the mask or the error of the k-th encryption of its parent or of a
+	// sibling copy (otherwise ct - ct' = pt - pt' is readable without any key).
+	for _, keyType := range []string{"sk", "pk"} {
+		var key rlwe.EncryptionKey = sk
+		if keyType == "pk" {
+			if float64(n)*varS < 16 {
+				continue // the ephemeral secret of a very sparse Xs may legitimately repeat
+			}
+			key = pk
+		}
+		level := params.MaxLevel()
+		rq := params.RingQ().AtLevel(level)
+		parent := rlwe.NewEncryptor(params, key)
+		encs := []*rlwe.Encryptor{parent, parent.ShallowCopy(), parent.ShallowCopy(), parent.WithKey(key), parent.ShallowCopy().ShallowCopy()}
+		names := []string{"parent", "copy1", "copy2", "withkey", "copy-of-copy"}
+		pt := rlwe.NewPlaintext(params, level) // zero plaintext
+		zero := rq.NewPoly()
+		for round := 0; round < 2; round++ {
+			var cts []*rlwe.Ciphertext
+			var errs [][]*big.Int
+			okAll := true
+			for _, en := range encs {
+				ct := rlwe.NewCiphertext(params, 1, level)
+				if err := en.Encrypt(pt, ct); err != nil {
+					okAll = false
+					break
+				}
+				cts = append(cts, ct)
+				errs = append(errs, obs.Diff(rq, obs.Phase(params, ct.El(), sk), zero))
+			}
+			if !okAll {
+				break
+			}
+			sig := fmt.Sprintf("C03|Encryptor.ShallowCopy|%s|P=%v", keyType, len(cf.P) > 0)
+			for i := 0; i < len(cts); i++ {
+				for j := i + 1; j < len(cts); j++ {
+					c.Count("derived_encryptor_pairs", 1)
+					c.Check(!cts[i].Value[1].Equal(&cts[j].Value[1]), sig+"|same-mask-as-"+"derived-encryptor", func() string {
+						return fmt.Sprintf("encryption #%d of %s and of %s have the same c1", round, names[i], names[j])
+					})
+					c.Check(!cts[i].Equal(cts[j]), sig+"|same-ciphertext-as-derived-encryptor", func() string {
+						return fmt.Sprintf("encryption #%d of %s and of %s are identical", round, names[i], names[j])
+					})
+				}
+			}
+			_ = errs
+		}
 	}
 	pools := map[string]*pool{}
 	for level := 0; level <= params.MaxLevel(); level++ {
@@ -407,7 +479,7 @@ func runEnc(c *eng.Ctx, cf cfg) {
 							if degree == 1 && isNTT && !isMont {
 								ct2 := rlwe.NewCiphertext(params, 1, level)
 								if enc.Encrypt(pt, ct2) == nil {
-											e3 := obs.Diff(rq, obs.Phase(params, ct2.El(), sk), msg)
+									e3 := obs.Diff(rq, obs.Phase(params, ct2.El(), sk), msg)
 									if nominal >= 3 {
 										c.Check(!eqBig(e, e3), sigBase+"|same-error-twice", nil)
 									}
@@ -455,7 +527,11 @@ func runEnc(c *eng.Ctx, cf cfg) {
 								}
 							}
 							// independent key: decryption must be far from the plaintext
-							if level >= 0 {
+							// (a public-key encryption whose ephemeral secret u, drawn from Xs, is the zero polynomial is the
+							// trivial encryption (m, 0) once the errors vanish in the division by P: with N=16 and a
+							// ternary Xs of density 1/3 that happens with probability (2/3)^16 ~ 2^-9.4 per encryption, by
+							// design. Only judge when P(u=0) < 2^-64.)
+							if keyType == "sk" || zeroBits(params.Xs(), n) >= 64 {
 								w := dec2.DecryptNew(dct)
 								wm := obs.Plain(rq, w.Value, w.IsNTT, w.IsMontgomery)
 								d := obs.Stat(obs.Diff(rq, wm, msg))
